@@ -8,6 +8,8 @@ Four parts, each a module with shards / cases / nontrivial / check:
                            converter graph on grids x spectrum shapes
   planck   c08_planck.py   f x (h f / k T) lattice, longdouble expm1 reference
   optics   c08_optics.py   n1 x n2 x theta lattice for snell / fresnel
+Every part also hands whole-number values over in the representations of
+c08_reps.py (Python int, int64 / int32 / int16, float32; scalar, 0-d, 1-d, 2-d).
 A case is a JSON-able dict that fully determines the typhon calls (replay).
 """
 import sys
@@ -48,12 +50,47 @@ RULE = (
     "equal length (every rotation of n1), n1[:,None] x theta[None,:]; "
     "non-trivial = an element with complex-typed n2, total reflection, or "
     "theta in {0, Brewster, 90}. "
+    "representations (reps = Python int, numpy int64, int32, int16, float32; "
+    "a value is only given in a rep that holds it exactly; a Python int "
+    "only as scalar): units - every path of 1..2 calls (thorough: 1..6) x "
+    "every rep x whole start values f {1e8,3e8,2^30,1.5e9,1e10,1e12,2^40,"
+    "1e15} Hz, lambda {1,2} m, wavenumber {1,100,500,1000,1500,1e6,3e6} /m, "
+    "each as scalar and 0-d array, all together as 1-d and 2-d array. "
+    "density - every path x trailing shape x (grid rep, spectrum rep) in "
+    "{4 array reps x float64, float64 x int64, float64 x float32, both "
+    "int64, both float32} on the grid of all whole values the rep holds. "
+    "planck - whole f {100,250,999}x10^(6..12), 2^{27,30,33,36,40,43,46,49}, "
+    "1e15 Hz x T {2,10,77,300,1000,5800,1e4} K with (rep of f, rep of T) in "
+    "{4 x float64, float64 x 4, 4 equal pairs} as scalar x scalar, 1-d f x "
+    "scalar T, scalar f x 1-d T, f[:,None] x T[None,:] (quick: T in "
+    "{2,300,1e4} where T is a scalar), all six functions; the same with "
+    "planck_wavenumber called on whole wavenumbers {1..3e6} /m and "
+    "planck_wavelength on {2, 1, 2^-4, 2^-10, 2^-14, 2^-17, 2^-20} m against "
+    "c B and B f^2/c of the reference. optics - n1 {1,2} x n2 {1,2,3} x "
+    "theta {0,20,45,60,90} (thorough: + 10,40,80) with one of n1, n2, theta "
+    "or all three in each rep, in all 7 layouts. Non-trivial by the rule of "
+    "the part. "
     "All cases of a run are distinct by construction (products of finite "
     "alphabets, no repetition).")
 ASSUMPTIONS = [
-    "inputs are Python floats / complex, numpy.float64 and float64 / "
-    "complex128 arrays, temperatures also Python ints; integer arrays "
-    "(f**3 overflows int64) are outside the domain",
+    "number representations: Python float / complex, numpy.float64, "
+    "float64 / complex128 arrays over the full lattices; Python int, "
+    "int64, int32, int16 and float32 (scalars, 0-d, 1-d, 2-d arrays) only on "
+    "the whole-number / power-of-two sub-lattices listed in RULE; unsigned, "
+    "int8, float16, longdouble and complex64 are not enumerated",
+    "a violation met in another representation than float64 carries the "
+    "suffix /python-int-input, /integer-dtype-input or /float32-input",
+    "single-precision input (float32; int16 angles, which NumPy's deg2rad "
+    "and sin evaluate in float32) may be computed in single precision by "
+    "the unit converters, the spectral-density converters, snell and "
+    "fresnel: tolerances there count float32 ulps (Brewster: 16 float32 "
+    "ulps). The Planck / Rayleigh-Jeans family is judged with the "
+    "double-precision tolerance for every representation: positivity up "
+    "to h f / k T = 600, the Rayleigh-Jeans bound and the inversions "
+    "cannot be met by a single-precision evaluation",
+    "a clause relating two typhon results (Planck <= Rayleigh-Jeans, both "
+    "inversions, the wavelength / wavenumber identities) is only judged "
+    "where the results it starts from passed their own value clause",
     "numpy.longdouble has a 64-bit mantissa (x86 extended precision); "
     "expm1, sin, arctan, sqrt of the platform libm in that precision are "
     "trusted",
